@@ -15,6 +15,10 @@ args cf cr cl cs cn xf sc: the body's inputs are CAPTURED outer ports (stream ne
 args <form><code>, form tl tb il ib t2, code i e m k: TWINS on the elements of one structured parameter (stream
 nestshape-twins; Lean: Model/BoundaryKey.lean).  args rs: a REF-producing terminal as plain result (Model/NestRef.lean).
 mode s<d>@<k>: the definition is started late, inside a switch_ branch selected at cycle k, inlined (d=0) or nested_ at depth d.
+args P<tree>@<views>: ONE structured parameter whose outer argument is assembled to any depth from separate sources
+(tree := s | l[..] | b[..] structural TSL / TSB | L[..] | B[..] one peered writer), the body consumes 1-3 views (w = whole,
+i.j.k = tsl_element / field projections; a scalar leaf or an inner structure consumed whole); stream nestshape-path;
+Lean: Model/BoundaryPath.lean, Props/C09Path.lean.
 
 The monitor tags the known discrepancy of COMPOSED results (stdlib::to_tsb / to_tsl in the body) with the stable prefix
 [C09-composed]; such bodies only occur in the stream nestshape-composed."""
@@ -24,7 +28,8 @@ import re
 from vlib import Case, Stream, BUILD, model_cmd
 
 ID = "C09S"
-LEAN_MODULES = ["HgVerif.Props.C09Shape", "HgVerif.Props.C09Capture", "HgVerif.Props.C09BoundaryKey", "HgVerif.Props.C09Findings"]
+LEAN_MODULES = ["HgVerif.Props.C09Shape", "HgVerif.Props.C09Capture", "HgVerif.Props.C09BoundaryKey", "HgVerif.Props.C09Findings",
+                "HgVerif.Props.C09Path"]
 THEOREMS = [
     "HgVerif.NestShape.forwarded_delta_eq_body_delta",
     "HgVerif.NestShape.nested_delta_eq_inlined_delta",
@@ -48,6 +53,18 @@ THEOREMS = [
     "HgVerif.BoundaryKey.served_by_own_inputs",
     "HgVerif.BoundaryKey.no_declared_path_merges_twins",
     "HgVerif.NestRef.ref_terminal_retarget_one_evaluation_late",
+    "HgVerif.BoundaryPath.boundary_path_resolves_to_inlined_source",
+    "HgVerif.BoundaryPath.boundary_paths_injective",
+    "HgVerif.BoundaryPath.boundaryRefs_shape",
+    "HgVerif.BoundaryPath.bind_boundaryShape_eq_source",
+    "HgVerif.BoundaryPath.nested_input_eq_inlined_source",
+    "HgVerif.BoundaryPath.nested_depth_reads_inlined_sources",
+    "HgVerif.BoundaryPath.nested_depth_irrelevant_inputs",
+    "HgVerif.BoundaryPath.nested_body_value_eq_inlined",
+    "HgVerif.BoundaryPath.nested_structured_argument_delta_eq_inlined",
+    "HgVerif.BoundaryPath.nested_structured_argument_depth_irrelevant",
+    "HgVerif.BoundaryPath.moved_prefix_aliases_and_misbinds",
+    "HgVerif.BoundaryPath.moved_prefix_same_on_flat",
 ]
 CXX_TARGETS = ["hgv_nestshape"]
 RULE = ("nestshape streams: one sub-graph definition with a STRUCTURED result (TS | TSB of 2-4 scalar fields | fixed TSL of "
@@ -73,9 +90,20 @@ RULE = ("nestshape streams: one sub-graph definition with a STRUCTURED result (T
         "nestshape-findings holds the three deviations of the current code, each tagged: a REF-producing terminal exposed "
         "as a plain result ([C09-ref-terminal]), a pass-through of a structural {a,b} argument ([C09-struct-pass]) and "
         "definitions started LATE inside a switch_ branch, nested (s1@k, s2@k) against inlined in the branch (s0@k) "
-        "([C09-late-start]).  A case is non-trivial when the inlined run "
+        "([C09-late-start]).  Stream nestshape-path: ONE structured parameter whose outer argument is ASSEMBLED from "
+        "separate scalar writers (and peered structured writers) to depth 1-3 - to_tsl / to_tsb of to_tsl / to_tsb .., "
+        "widths 1-3, lists of lists, bundles of lists, lists of bundles, a depth-3 tree with width-1 levels, random "
+        "sub-structures replaced by ONE peered writer - and a body that consumes 1-3 views of it: random scalar leaves "
+        "projected with tsl_element / field (mostly NOT the first child of their inner structure), an inner l[ss] / b[ss] / "
+        "l[sss] structure consumed whole by the body node, the whole parameter, or an inner structure plus a scalar; every "
+        "scalar source has its own value range and ticks in its own cycles (solo ticks of every consumed source), so a "
+        "child endpoint that is left unbound or bound to another source changes the result; run inlined and nested_ at "
+        "depth 1, 2 (always) and 3 (sampled).  A case is non-trivial when the inlined run "
         "ticked in >=2 cycles; distinct by case text")
-TRUSTED = ["late start (modes s<d>@<k>): that a switch_ branch binds its boundary inputs SAMPLED while a nested_ node binds "
+TRUSTED = ["structured parameters (stream nestshape-path): the endpoint of a structural outer argument is modelled by its source "
+           "tree (non-peered positions have no output; a peered position is a link to that output); which history column a "
+           "body channel reads is computed by HgVerif.BoundaryPath.bodyInput in lean/Drivers/C09Shape.lean (correspondence)",
+           "late start (modes s<d>@<k>): that a switch_ branch binds its boundary inputs SAMPLED while a nested_ node binds "
            "them plain and only schedules the consumers is part of the body interpreter of lean/Drivers/C09Shape.lean "
            "(correspondence), not of a theorem",
            "the recorder reads modified()/valid()/value() per LEAF of the outer result (an Unchecked input); what "
@@ -120,7 +148,105 @@ def is_capture(args):
     return args in CAP_KINDS or args == "sc"
 
 
+# ----------------------------------------------------------------------------- P<tree>@<views>: one structured parameter
+PATH_SIGS = ["l[sss]", "b[ss]", "l[l[ss]l[ss]]", "b[l[ss]s]", "b[sl[ss]]", "l[b[ss]b[ss]b[ss]]", "b[l[sss]b[ss]s]",
+             "l[l[l[ss]l[ss]]l[l[ss]l[ss]]]", "b[l[b[ss]b[ss]]sl[sss]]", "b[b[l[sss]]l[l[s]l[s]]]"]
+
+
+def is_path(args):
+    return args.startswith("P")
+
+
+def pt_parse(text, i=0, in_peered=False):
+    """tree := s | l[..] | b[..] | L[..] | B[..] -> (node, next index); node = dict(kind, peered, kids, leaves, sig)"""
+    if i >= len(text):
+        raise ValueError("tree")
+    c = text[i]
+    if c == "s":
+        return dict(kind="s", peered=True, kids=[], leaves=1, sig="s"), i + 1
+    lc = c.lower()
+    if lc not in "lb" or (in_peered and c != lc) or text[i + 1:i + 2] != "[":
+        raise ValueError("tree")
+    peered = in_peered or c != lc
+    i += 2
+    kids = []
+    while i < len(text) and text[i] != "]":
+        k, i = pt_parse(text, i, peered)
+        kids.append(k)
+    if i >= len(text) or not kids or len(kids) > 3:
+        raise ValueError("tree")
+    return dict(kind=lc, peered=peered, kids=kids, leaves=sum(k["leaves"] for k in kids),
+                sig=lc + "[" + "".join(k["sig"] for k in kids) + "]"), i + 1
+
+
+def pt_at(node, path):
+    for k in path:
+        if k >= len(node["kids"]):
+            return None
+        node = node["kids"][k]
+    return node
+
+
+def pt_text(node):
+    if node["kind"] == "s":
+        return "s"
+    c = node["kind"].upper() if node["peered"] and not node.get("under_peered") else node["kind"]
+    return c + "[" + "".join(pt_text(k) for k in node["kids"]) + "]"
+
+
+def views_ok(views, sigs):
+    if not sigs or len(sigs) > 3:
+        return False
+    if all(x == "s" for x in sigs):
+        return True
+    if len(sigs) == 1:
+        return sigs[0] in ("l[ss]", "b[ss]", "l[sss]") or views[0] == []
+    if len(sigs) == 2:
+        return (sigs[0] in ("l[ss]", "b[ss]") and sigs[1] == "s") or (sigs[0] == "s" and sigs[1] in ("l[ss]", "b[ss]"))
+    return False
+
+
+_PATH_CACHE = {}
+
+
+def path_parse(args):
+    """-> dict(tree, views=[[int]], subs=[node], chans, bch) or None"""
+    if args in _PATH_CACHE:
+        return _PATH_CACHE[args]
+    res = None
+    try:
+        if is_path(args) and "@" in args:
+            t, v = args[1:].split("@", 1)
+            tree, n = pt_parse(t)
+            if n == len(t) and tree["sig"] in PATH_SIGS:
+                views = []
+                for x in v.split(","):
+                    if x == "w":
+                        views.append([])
+                    elif re.match(r"^[0-2](\.[0-2])*$", x):
+                        views.append([int(y) for y in x.split(".")])
+                    else:
+                        raise ValueError("view")
+                subs = [pt_at(tree, q) for q in views]
+                if all(z is not None for z in subs) and views_ok(views, [z["sig"] for z in subs]):
+                    res = dict(tree=tree, views=views, subs=subs, chans=tree["leaves"], bch=sum(z["leaves"] for z in subs))
+    except (ValueError, IndexError):
+        res = None
+    _PATH_CACHE[args] = res
+    return res
+
+
+def chans_of(args):
+    if is_path(args):
+        pp = path_parse(args)
+        return pp["chans"] if pp else 0
+    return CHANS.get(args, 0)
+
+
 def body_chans(args):
+    if is_path(args):
+        pp = path_parse(args)
+        return pp["bch"] if pp else 0
     return 2 if args == "cs" else CHANS[args]
 MODES = ["inl", "n1", "n2", "n3", "n4", "nw"]
 FLAT = ("b2", "b3", "b4", "l2", "l3", "l4")
@@ -140,7 +266,12 @@ def parse_case(case):
     if len(L) < 4:
         return None
     w = L[1].split()
-    if len(w) < 6 or w[0] != "def" or (w[1] + ":" + w[2]) not in PAIRS:
+    if len(w) < 6 or w[0] != "def":
+        return None
+    if is_path(w[2]):
+        if w[1] != "l3" or w[3] != "node" or path_parse(w[2]) is None:
+            return None
+    elif (w[1] + ":" + w[2]) not in PAIRS:
         return None
     res, args, style, timer = w[1], w[2], w[3], w[4]
     if style not in ("node", "sink", "proj", "pass", "comp") or len(w) != 5 + LEAVES[res]:
@@ -151,7 +282,7 @@ def parse_case(case):
         if not t:
             return None
         if t[0] == "c" and not runs:
-            if len(t) != 1 + CHANS[args]:
+            if len(t) != 1 + chans_of(args):
                 return None
             row = []
             for x in t[1:]:
@@ -214,7 +345,7 @@ def check_trace(stream, case, out):
     p = parse_case(case)
     if p is None:
         return bad, comp, feats
-    feats.update(["res=" + p["res"], "args=" + p["args"], "style=" + p["style"],
+    feats.update(["res=" + p["res"], "args=" + ("P(one-structured-parameter)" if is_path(p["args"]) else p["args"]), "style=" + p["style"],
                   "timer=" + ("none" if p["timer"] == "t0" else "at-first-eval" if p["timer"][0] == "e" else "in-start")])
     if is_capture(p["args"]):
         feats.add("capture:" + {"cf": "two-fields-of-one-TSB-node", "cr": "two-fields-of-one-TSB-node(reverse-order)",
@@ -224,6 +355,8 @@ def check_trace(stream, case, out):
         cols = [c for c in range(CHANS[p["args"]]) if p["args"] != "sc" or c >= 1]
         if len(cols) >= 2 and any(row[cols[0]] != row[cols[1]] for row in p["hist"]):
             feats.add("capture:the-two-ports-carry-different-streams")
+    if is_path(p["args"]):
+        feats.update(path_features(p))
     for r in p["rules"]:
         feats.add("rule:" + {"A": "any-input", "K": "one-argument", "O": "odd-values-only", "F": "once-at-first-eval",
                              "T": "internal-timer", "N": "never"}.get(r[0], "?") + "/" +
@@ -355,6 +488,70 @@ def check_trace(stream, case, out):
     return bad, comp, feats
 
 
+def path_features(p):
+    """coverage of the structured-parameter kind: shape of the assembled argument and what the body consumes"""
+    pp = path_parse(p["args"])
+    f = set()
+    tree = pp["tree"]
+
+    def depth(n):
+        return 0 if n["kind"] == "s" else 1 + max(depth(k) for k in n["kids"])
+
+    def asm_depth(n):          # levels of STRUCTURAL assembly (a peered writer is a leaf of the boundary shape)
+        return 0 if n["kind"] == "s" or n["peered"] else 1 + max(asm_depth(k) for k in n["kids"])
+
+    def walk(n):
+        yield n
+        for k in n["kids"]:
+            yield from walk(k)
+    nodes = list(walk(tree))
+    f.add("path:schema-depth=%d" % depth(tree))
+    f.add("path:assembled-depth=%d" % asm_depth(tree))
+    for n in nodes:
+        if n["kind"] != "s":
+            f.add("path:width=%d" % len(n["kids"]))
+    kinds = {n["kind"] for n in nodes if n["kind"] != "s"}
+    if kinds == {"l", "b"}:
+        f.add("path:mixed-list-and-bundle")
+    if any(n["kind"] != "s" and n["peered"] for n in nodes if n is not tree) and not tree["peered"]:
+        f.add("path:a-sub-structure-is-one-peered-writer")
+    if tree["peered"]:
+        f.add("path:whole-argument-is-one-peered-writer(control)")
+    for q, sub in zip(pp["views"], pp["subs"]):
+        f.add("path:view=" + ("whole-parameter" if not q else "scalar-leaf" if sub["kind"] == "s" else "inner-structure-consumed-whole"))
+        # positions the body reads that are NOT reached through first children only, below the top level of a
+        # structurally assembled part: the binding path there is {arg} + a prefix + an index >= 1
+        leaves = []
+
+        def lp(n, pre):
+            if n["kind"] == "s":
+                leaves.append(pre)
+            for i, k in enumerate(n["kids"]):
+                lp(k, pre + [i])
+        lp(sub, list(q))
+        for path in leaves:
+            # the boundary leaf that covers this scalar: the first peered node on the way down
+            n, cut = tree, 0
+            while cut < len(path) and not n["peered"]:
+                n = n["kids"][path[cut]]
+                cut += 1
+            bpath = path[:cut]
+            if len(bpath) >= 2 and bpath[-1] >= 1:
+                f.add("path:reads-a-non-first-child-below-the-top-level")
+            if len(bpath) >= 3 and bpath[-1] >= 1:
+                f.add("path:reads-a-non-first-child-three-levels-down")
+            if len(bpath) >= 2 and bpath[0] >= 1:
+                f.add("path:reads-below-a-non-first-top-level-child")
+            if cut < len(path):
+                f.add("path:projects-into-a-peered-sub-structure")
+    cols = list(zip(*p["hist"]))
+    if len({tuple(x is not None for x in c) for c in cols}) >= 2:
+        f.add("path:sources-tick-in-different-cycles")
+    if any(sum(1 for x in row if x is not None) == 1 for row in p["hist"]):
+        f.add("path:a-cycle-with-a-single-ticking-source")
+    return f
+
+
 def monitor(stream, case, out):
     bad, comp, _ = check_trace(stream, case, out)
     # a known-finding tag is only reported alone: a case that ALSO shows another violation is reported as that violation
@@ -377,6 +574,8 @@ def valid_case(stream, case, impl_out, model_out):
     if (p["style"] == "comp") != (stream == "nestshape-composed"):
         return False
     if stream == "nestshape-capture" and not is_capture(p["args"]):
+        return False
+    if is_path(p["args"]) != (stream == "nestshape-path"):
         return False
     finding = p["args"] == "rs" or (is_twin(p["args"]) and p["style"] == "pass") or any(SW_MODE.match(m) for m in modes)
     if finding != (stream == "nestshape-findings"):
@@ -572,6 +771,121 @@ def gen_twin_case(rng, idx):
     return Case(case_lines(idx, "l3", form + code, style, timer, rules, hist, modes), {"pattern": "twins"})
 
 
+def _pt_nodes(n, pre=()):
+    yield n, list(pre)
+    for i, k in enumerate(n["kids"]):
+        yield from _pt_nodes(k, pre + (i,))
+
+
+def _pt_render(n, under=False):
+    if n["kind"] == "s":
+        return "s"
+    c = n["kind"].upper() if (n["peered"] and not under) else n["kind"]
+    return c + "[" + "".join(_pt_render(k, under or n["peered"]) for k in n["kids"]) + "]"
+
+
+def gen_path_case(rng, idx):
+    """one structured parameter assembled to depth 1-3 from separate sources; the body reads random leaves (mostly not
+    first children) / inner structures / the whole parameter; every source has its own value range and solo ticks"""
+    sig = rng.choice(PATH_SIGS[:2] + PATH_SIGS[2:5] * 4 + PATH_SIGS[5:7] * 3 + PATH_SIGS[7:] * 4)
+    tree, _ = pt_parse(sig)
+    # which sub-structures are ONE peered writer
+    r = rng.random()
+    if r < 0.04:
+        tree["peered"] = True
+    elif r < 0.40:
+        inner = [n for n, q in _pt_nodes(tree) if q and n["kind"] != "s"]
+        for n in inner:
+            if rng.random() < 0.3:
+                n["peered"] = True
+    text = _pt_render(tree)
+    tree, _ = pt_parse(text)          # normalised (everything under a peered node is peered)
+    nodes = list(_pt_nodes(tree))
+    leaves = [q for n, q in nodes if n["kind"] == "s"]
+    deep_late = [q for q in leaves if len(q) >= 2 and q[-1] >= 1]
+    smalls = [q for n, q in nodes if q and n["sig"] in ("l[ss]", "b[ss]")]
+    inner = [q for n, q in nodes if q and n["sig"] in ("l[ss]", "b[ss]", "l[sss]")]
+
+    def leaf():
+        return rng.choice(deep_late) if deep_late and rng.random() < 0.7 else rng.choice(leaves)
+    r = rng.random()
+    if r < 0.45 or (not inner and r < 0.85):
+        k = rng.choice([1, 2, 2, 3, 3])
+        views = [leaf() for _ in range(k)]
+    elif r < 0.60 and inner:
+        views = [rng.choice(inner)]
+    elif r < 0.80 and smalls:
+        st = rng.choice(smalls)
+        views = [st, leaf()] if rng.random() < 0.5 else [leaf(), st]
+    else:
+        views = [[]]
+    vtext = ",".join("w" if not q else ".".join(str(x) for x in q) for q in views)
+    args = "P%s@%s" % (text, vtext)
+    pp = path_parse(args)
+    assert pp is not None, args
+    ch, bch = pp["chans"], pp["bch"]
+    # body channel -> history column
+    cols = []
+    for q, sub in zip(pp["views"], pp["subs"]):
+        base = sum(n["leaves"] for n, qq in nodes if n["kind"] == "s" and qq < q)
+        cols += list(range(base, base + sub["leaves"]))
+    timer = rng.choice(["t0"] * 9 + ["e2", "s1,2"])
+    # rules: mostly "leaf i follows body channel j" (tick and value), preferring channels off the first-child spine
+    late = [j for j in range(bch) if j >= 1]
+    rules = []
+    for i in range(3):
+        j = rng.choice(late) if late and rng.random() < 0.6 else rng.randrange(bch)
+        r = rng.random()
+        if r < 0.5:
+            rules.append("K%dx%d" % (j, j))
+        elif r < 0.65:
+            rules.append("Ax%d" % j)
+        elif r < 0.8:
+            rules.append("Aa")
+        elif r < 0.9:
+            rules.append("K%dn" % j)
+        else:
+            rules.append(rng.choice(["O%dx%d" % (j, j), "Tn" if timer != "t0" else "An", "Fx%d" % j, "Nk0"]))
+    if bch >= 4 and not any(x == "Aa" for x in rules):
+        rules[rng.randrange(3)] = "Aa"            # many channels, three leaves: the accumulator sees every channel
+    n = rng.choice([4, 5, 6, 7, 8, 9])
+    kind = rng.choice(["solo", "solo", "sparse", "dense", "late-gate"])
+    hist = []
+    gate_cols = cols[:pp["subs"][0]["leaves"]]
+    late_k = rng.randrange(1, max(2, n - 2))
+    for k in range(n):
+        row = []
+        for c in range(ch):
+            pr = {"solo": 0.0, "sparse": 0.3, "dense": 0.7, "late-gate": 0.4}[kind]
+            if kind == "late-gate" and c in gate_cols and k < late_k:
+                pr = 0.0
+            row.append((100 * c + rng.randrange(1, 90)) if rng.random() < pr else None)
+        hist.append(row)
+    if kind == "solo":
+        # cycle 0: everything (or the gate only) is set; then one source per cycle, consumed sources first
+        for c in (range(ch) if rng.random() < 0.6 else gate_cols):
+            hist[0][c] = 100 * c + rng.randrange(1, 90)
+        order = list(dict.fromkeys(cols))
+        rng.shuffle(order)
+        rest = [c for c in range(ch) if c not in order]
+        rng.shuffle(rest)
+        for k, c in zip(range(1, n), order + rest):
+            hist[k][c] = 100 * c + rng.randrange(1, 90)
+    else:
+        # every consumed source ticks at least once, and once alone
+        for c in dict.fromkeys(cols):
+            if all(row[c] is None for row in hist):
+                hist[rng.randrange(n)][c] = 100 * c + rng.randrange(1, 90)
+        k = rng.randrange(n)
+        c = rng.choice(cols)
+        hist[k] = [None] * ch
+        hist[k][c] = 100 * c + rng.randrange(1, 90)
+    if all(hist[k][c] is None for k in range(n) for c in gate_cols):
+        hist[0][gate_cols[0]] = 100 * gate_cols[0] + 7
+    modes = ["inl", "n1", "n2"] + (["n3"] if rng.random() < 0.3 else [])
+    return Case(case_lines(idx, "l3", args, "node", timer, rules, hist, modes), {"pattern": "path"})
+
+
 def gen_finding_case(rng, idx):
     """the three known deviations of the current code (each with controls that must stay clean)"""
     kind = rng.choice(["ref"] * 3 + ["pass"] * 2 + ["late"] * 5)
@@ -650,9 +964,12 @@ def streams(rng, tier, seed):
     twins = [gen_twin_case(rng, 80000 + i) for i in range(ntw)]
     nfi = 60 if tier == "quick" else 1500
     find = [gen_finding_case(rng, 90000 + i) for i in range(nfi)]
-    special = ("nestshape_composed_", "nestshape_capture_", "nestshape_twins_", "nestshape_findings_")
+    npa = 160 if tier == "quick" else 5000
+    paths = [gen_path_case(rng, 95000 + i) for i in range(npa)]
+    special = ("nestshape_composed_", "nestshape_capture_", "nestshape_twins_", "nestshape_findings_", "nestshape_path_")
     return [Stream("nestshape-main", NS, model_cmd("C09Shape"), _corpus("nestshape_", special) + cases, timeout=1800),
             Stream("nestshape-composed", NS, model_cmd("C09Shape"), _corpus("nestshape_composed_") + comp, timeout=1800),
             Stream("nestshape-capture", NS, model_cmd("C09Shape"), _corpus("nestshape_capture_") + capt, timeout=1800),
             Stream("nestshape-twins", NS, model_cmd("C09Shape"), _corpus("nestshape_twins_") + twins, timeout=1800),
-            Stream("nestshape-findings", NS, model_cmd("C09Shape"), _corpus("nestshape_findings_") + find, timeout=1800)]
+            Stream("nestshape-findings", NS, model_cmd("C09Shape"), _corpus("nestshape_findings_") + find, timeout=1800),
+            Stream("nestshape-path", NS, model_cmd("C09Shape"), _corpus("nestshape_path_") + paths, timeout=1800)]
